@@ -197,6 +197,7 @@ package types
 
 //@ func (ps *PartSet) AddPart(part *Part) (added bool, err error)
 //@   for C13 C18
+//@   safe
 //@   requires part != nil
 //@   requires ps != nil ==> wfPS(ps)
 //@   modifies ps.parts[_], ps.count, ps.partsBitArray.Elems[_]
@@ -492,3 +493,45 @@ package types
 //@ trusted func (tx *Transaction) Cost() (r *big.Int)
 //@   ensures r != nil
 //@ trusted func (tx *Transaction) Hash() (r common.Hash)
+
+// ---------------------------------------------------------------- C11: transaction signers
+// Two chain-id signers are interchangeable (e.g. for the cached sender) only if their chain ids are equal.
+//@ func (s ChainIDSigner) Equal(s2 Signer) (r bool)
+//@   for C11
+//@   opt assumecallreqs
+//@   requires s.chainId != nil
+//@   ensures [sameChainOnly] r ==> dyntype(s2) == typeid(ChainIDSigner) && unbox(s2, ChainIDSigner).chainId != nil && unbox(s2, ChainIDSigner).chainId.v == s.chainId.v
+//@   ensures [otherSignerKinds] dyntype(s2) != typeid(ChainIDSigner) ==> !r
+
+// ---------------------------------------------------------------- C13: headers on the wire
+// Every header field is taken from the same-named wire field.
+//@ func HeaderFromProto(ph *kproto.Header) (h Header, err error)
+//@   for C13
+//@   opt assumecallreqs
+//@   ensures [scalarsCopied] err == nil ==> h.Height == ph.Height && h.Time == ph.Time && h.GasLimit == ph.GasLimit && h.NumTxs == ph.NumTxs
+//@   ensures [validatorsHash] err == nil && len(ph.ValidatorsHash) == 32 ==> content(h.ValidatorsHash) == content(ph.ValidatorsHash)
+//@   ensures [nextValidatorsHash] err == nil && len(ph.NextValidatorsHash) == 32 ==> content(h.NextValidatorsHash) == content(ph.NextValidatorsHash)
+//@   ensures [consensusHash] err == nil && len(ph.ConsensusHash) == 32 ==> content(h.ConsensusHash) == content(ph.ConsensusHash)
+//@   ensures [appHash] err == nil && len(ph.AppHash) == 32 ==> content(h.AppHash) == content(ph.AppHash)
+//@   ensures [txHash] err == nil && len(ph.DataHash) == 32 ==> content(h.TxHash) == content(ph.DataHash)
+//@   ensures [evidenceHash] err == nil && len(ph.EvidenceHash) == 32 ==> content(h.EvidenceHash) == content(ph.EvidenceHash)
+//@   ensures [lastCommitHash] err == nil && len(ph.LastCommitHash) == 32 ==> content(h.LastCommitHash) == content(ph.LastCommitHash)
+//@   ensures [proposer] err == nil && len(ph.ProposerAddress) == 20 ==> content(h.ProposerAddress) == content(ph.ProposerAddress)
+//@ trusted func (h Header) ValidateBasic() (err error)
+//@ trusted func BlockIDFromProto(bID *kproto.BlockID) (r *BlockID, err error)
+//@   ensures err == nil ==> r != nil
+
+//@ func (vs *ValidatorSet) Copy() (r *ValidatorSet)
+//@   for C12
+//@   requires vs != nil
+//@   ensures fresh(r) && len(r.Validators) == len(vs.Validators) && r.Proposer == vs.Proposer && r.totalVotingPower == vs.totalVotingPower
+//@   ensures forall i int :: 0 <= i && i < len(vs.Validators) && vs.Validators[i] != nil ==> r.Validators[i] != nil && r.Validators[i] != vs.Validators[i] && r.Validators[i].Address == vs.Validators[i].Address && r.Validators[i].VotingPower == vs.Validators[i].VotingPower && r.Validators[i].ProposerPriority == vs.Validators[i].ProposerPriority
+
+//@ func validatorListCopy(valsList []*Validator) (r []*Validator)
+//@   for C12
+//@   ensures valsList == nil ==> r == nil
+//@   ensures valsList != nil ==> fresh(r) && len(r) == len(valsList)
+//@   ensures forall i int :: 0 <= i && i < len(valsList) && valsList[i] != nil ==> r[i] != nil && r[i] != valsList[i] && r[i].Address == valsList[i].Address && r[i].VotingPower == valsList[i].VotingPower && r[i].ProposerPriority == valsList[i].ProposerPriority
+//@   loop 1:
+//@     invariant 0 <= iter && iter <= len(valsList) && len(valsCopy) == len(valsList) && fresh(valsCopy)
+//@     invariant forall i int :: 0 <= i && i < iter && valsList[i] != nil ==> valsCopy[i] != nil && valsCopy[i] != valsList[i] && valsCopy[i].Address == valsList[i].Address && valsCopy[i].VotingPower == valsList[i].VotingPower && valsCopy[i].ProposerPriority == valsList[i].ProposerPriority
